@@ -41,6 +41,13 @@ GROUPS["foo"] = '''
 from dataclasses import dataclass, field
 from typing import List, Optional
 from apischema import schema
+from apischema.fields import with_fields_set
+
+@with_fields_set
+@dataclass
+class FS:
+    a: int = 0
+    b: Optional[int] = None
 
 @dataclass
 class Foo:
@@ -60,9 +67,10 @@ def foo_to_int(f: Foo) -> int:
 
 OBS = [
     ("Foo", Foo, [{"foo_bar": 1}, {"fooBar": 2}, {"FOO_BAR": 3, "BAZ": "u"}, {"foo_bar": -1}, {"foo_bar": "4"}, {"foo_bar": "four"},
-                  {"foo_bar": 1, "extra": 2}, {"foo_bar": "x", "baz": None}, 5, {}, []],
+                  {"foo_bar": 1, "extra": 2}, {"foo_bar": "x", "baz": None}, 5, {}, [], Foo(7, "instance")],
      [Foo(1, "s"), Foo(), Foo("notint")]),
     ("Wrap", Wrap, [{"foo": {"foo_bar": 1}, "foos": [{"foo_bar": 2}, 7]}, {"FOO": {"FOO_BAR": 1}}, {}], [Wrap(Foo(2), [Foo(3, "z")]), Wrap()]),
+    ("FS", FS, [{"a": 1}], [FS(a=1), FS(b=None)]),
 ]
 '''
 
@@ -235,16 +243,22 @@ class Zoo:
 OBS = [
     ("Animal", Animal, [{"name": "a"}, {"kind": "Cat", "name": "c", "lives": 3}, {"type": "kitty", "lives": 1}, {"kind": "Dog"}, {"type": "Dog", "good": False}],
      [Animal("a"), Cat("c", 3), Dog("d")]),
+    ("Cat", Cat, [{"name": "c", "lives": 2}, {"kind": "Cat", "lives": 2}], [Cat("c", 2)]),
     ("Zoo", Zoo, [{"pet": {"kind": "Cat"}}, {"pet": {"name": "z"}}], [Zoo(Cat("c", 1)), Zoo()]),
 ]
 '''
 
 GROUPS["s"] = '''
 from dataclasses import dataclass
+from apischema import serialized
 
 @dataclass
 class S:
     x: int = 1
+
+    @serialized
+    def own(self) -> int:
+        return self.x + 1
 
 @dataclass
 class SSub(S):
@@ -257,6 +271,49 @@ def s_triple(self) -> str:
     return "t%s" % (self.x * 3)
 
 OBS = [("S", S, [{"x": 3}], [S(4)]), ("SSub", SSub, [{"x": 3, "y": 1}], [SSub(5, 6)])]
+'''
+
+GROUPS["rec"] = '''
+from dataclasses import dataclass, field
+from typing import List, Optional
+
+class Node:
+    """a plain class: its fields (hence whether it is recursive) are given by set_object_fields"""
+    def __init__(self, value=0, child=None):
+        self.value = value
+        self.child = child
+
+    def __repr__(self):
+        return f"Node({self.value!r}, {self.child!r})"
+
+@dataclass
+class Leaf:
+    n: int = 0
+
+@dataclass
+class Tree:
+    """not recursive, until a conversion Leaf <-> Tree is registered"""
+    leaf: Optional[Leaf] = None
+    leaves: List[Leaf] = field(default_factory=list)
+
+@dataclass
+class Rec:
+    """statically recursive"""
+    some_val: int = 0
+    next: Optional["Rec"] = None
+
+def leaf_from_tree(t: Tree) -> Leaf:
+    return Leaf(len(t.leaves) + 100)
+
+def leaf_to_tree(l: Leaf) -> Tree:
+    return Tree(None, [Leaf(7)] * l.n) if l.n < 3 else Tree()
+
+OBS = [
+    ("Node", Node, [{"value": 5}, {"value": 1, "child": {"value": 2, "child": None}}], [Node(5), Node(1, Node(2))]),
+    ("Tree", Tree, [{"leaf": {"n": 1}}, {"leaf": {"leaf": {"n": 1}, "leaves": [{"n": 2}]}}], [Tree(Leaf(1), [Leaf(2)])]),
+    ("Leaf", Leaf, [{"n": 1}, {"leaves": [{"n": 1}]}], [Leaf(2)]),
+    ("Rec", Rec, [{"some_val": 1, "next": {"some_val": 2}}, {"someVal": 1, "next": {"someVal": 2, "extra": 0}}], [Rec(1, Rec(2))]),
+]
 '''
 
 GROUPS["raw"] = '''
@@ -359,18 +416,20 @@ def observe_block(tp, data, values, kind: str) -> Dict[str, str]:
     if kind == "des":
         for i, d in enumerate(data):
             out[f"des[{i}]"] = _outcome(lambda: deserialize(tp, copy.deepcopy(d)))
+            out[f"des[{i}]/coerce"] = _outcome(lambda: deserialize(tp, copy.deepcopy(d), coerce=True))
         if data:
             d = data[0]
             out["des[0]/same-object"] = _outcome(lambda: (lambda x: deserialize(tp, x) is x)(copy.deepcopy(d)))
-            out["des[0]/coerce"] = _outcome(lambda: deserialize(tp, copy.deepcopy(data[-1]), coerce=True))
     elif kind == "desm":
         if data:
             out["desm[0]"] = _outcome(lambda: deserialization_method(tp)(copy.deepcopy(data[0])))
     elif kind == "ser":
         for i, v in enumerate(values):
             out[f"ser[{i}]"] = _outcome(lambda: serialize(tp, v))
+            out[f"ser[{i}]/check_type"] = _outcome(lambda: serialize(tp, v, check_type=True))
         if values:
             out["ser[0]/any"] = _outcome(lambda: serialize(values[0]))
+            out["ser[0]/same-object"] = _outcome(lambda: serialize(tp, values[0]) is values[0])
     elif kind == "serm":
         if values:
             out["serm[0]"] = _outcome(lambda: serialization_method(tp)(values[0]))
@@ -381,15 +440,15 @@ def observe_block(tp, data, values, kind: str) -> Dict[str, str]:
     return out
 
 
-def observe(world: Dict[str, dict], groups: Sequence[str], reset_each_block: bool = False, kinds: Sequence[str] = KINDS) -> Dict[str, str]:
+def observe(world: Dict[str, dict], groups: Sequence[str], reset_each_type: bool = False, kinds: Sequence[str] = KINDS) -> Dict[str, str]:
     import apischema
 
     out: Dict[str, str] = {}
     for g in groups:
         for label, tp, data, values in world[g]["OBS"]:
+            if reset_each_type:
+                apischema.cache.reset()
             for kind in kinds:
-                if reset_each_block:
-                    apischema.cache.reset()
                 for k, v in observe_block(tp, data, values, kind).items():
                     out[f"{g}.{label}.{k}"] = v
     return out
@@ -435,8 +494,9 @@ def ident2(s: str) -> str:
 
 
 class Op:
-    def __init__(self, name: str, family: str, groups: Sequence[str], apply: Callable[[Dict[str, dict]], Any]):
-        self.name, self.family, self.groups, self.apply = name, family, tuple(groups), apply
+    def __init__(self, name: str, family: str, groups: Sequence[str], apply: Callable[[Dict[str, dict]], Any], target: str):
+        # target: the configuration cell the operation writes (one settings attribute, one registry key)
+        self.name, self.family, self.groups, self.apply, self.target = name, family, tuple(groups), apply, target
 
     def __repr__(self):
         return self.name
@@ -455,19 +515,19 @@ def build_ops() -> List[Op]:
     D = lambda c, k: default[(c, k)]  # noqa: E731
     ops: List[Op] = []
 
-    def add(name, family, groups, fn):
-        ops.append(Op(name, family, groups, fn))
+    def add(name, family, groups, fn, target=None):
+        ops.append(Op(name, family, groups, fn, target or name.split("=")[0]))
 
     def setter(cls, attr, value):
         return lambda w: setattr(cls, attr, value)
 
     # -- settings (top level) ----------------------------------------------------------
-    add("settings.additional_properties=True", "settings", ["foo"], setter(settings, "additional_properties", True))
+    add("settings.additional_properties=True", "settings", ["foo", "rec"], setter(settings, "additional_properties", True))
     add("settings.additional_properties=False", "settings", ["foo"], setter(settings, "additional_properties", False))
     add("settings.aliaser=upper", "settings", ["foo", "ca"], setter(settings, "aliaser", upper))
     add("settings.aliaser=identity", "settings", ["foo", "ca"], setter(settings, "aliaser", ident2))
-    add("settings.camel_case=True", "settings", ["foo", "ca"], setter(settings, "camel_case", True))
-    add("settings.camel_case=False", "settings", ["foo", "ca"], setter(settings, "camel_case", False))
+    add("settings.camel_case=True", "settings", ["foo", "ca", "rec"], setter(settings, "camel_case", True), target="settings.aliaser")
+    add("settings.camel_case=False", "settings", ["foo", "ca"], setter(settings, "camel_case", False), target="settings.aliaser")
 
     def custom_object_fields(cls):
         if cls.__name__ == "Ext":
@@ -486,14 +546,14 @@ def build_ops() -> List[Op]:
     add("settings.default_type_name=custom", "settings", ["foo", "nt"], setter(settings, "default_type_name", custom_type_name))
     add("settings.default_type_name=default", "settings", ["foo", "nt"], setter(settings, "default_type_name", D("settings", "default_type_name")))
     for vn in ("DRAFT_7", "OPEN_API_3_0", "DRAFT_2020_12"):
-        add(f"settings.json_schema_version={vn}", "settings", ["foo", "dr", "raw"], setter(settings, "json_schema_version", getattr(JsonSchemaVersion, vn)))
+        add(f"settings.json_schema_version={vn}", "settings", ["foo", "dr", "nt"], setter(settings, "json_schema_version", getattr(JsonSchemaVersion, vn)))
 
     # -- settings.errors -------------------------------------------------------------------
     for attr in sorted(k for (c, k) in default if c == "settings.errors"):
         grp = ["cons"]
         add(f"settings.errors.{attr}=custom", "errors", grp, setter(settings.errors, attr, f"custom {attr} {{}}" if "{}" in str(D("settings.errors", attr)) else f"custom {attr}"))
         add(f"settings.errors.{attr}=default", "errors", grp, setter(settings.errors, attr, D("settings.errors", attr)))
-    add("settings.errors.minimum=callable", "errors", ["cons", "foo"], setter(settings.errors, "minimum", lambda constraint, data: f"{data} below {constraint}"))
+    add("settings.errors.minimum=callable", "errors", ["cons", "foo"], setter(settings.errors, "minimum", lambda constraint, data: f"{data} below {constraint}"), target="settings.errors.minimum")
 
     # -- settings.base_schema ----------------------------------------------------------------
     def bs_field(tp, name, alias_):
@@ -537,8 +597,8 @@ def build_ops() -> List[Op]:
     add("settings.deserialization.no_copy=True", "deserialization", ["raw"], setter(sd, "no_copy", True))
     add("settings.deserialization.override_dataclass_constructors=True", "deserialization", ["foo"], setter(sd, "override_dataclass_constructors", True))
     add("settings.deserialization.override_dataclass_constructors=False", "deserialization", ["foo"], setter(sd, "override_dataclass_constructors", False))
-    add("settings.deserialization.pass_through=Ext", "deserialization", ["ext"], lambda w: setattr(sd, "pass_through", (w["ext"]["Ext"],)))
-    add("settings.deserialization.pass_through=()", "deserialization", ["ext"], setter(sd, "pass_through", ()))
+    add("settings.deserialization.pass_through=Foo", "deserialization", ["foo"], lambda w: setattr(sd, "pass_through", (w["foo"]["Foo"],)), target="settings.deserialization.pass_through")
+    add("settings.deserialization.pass_through=()", "deserialization", ["foo"], setter(sd, "pass_through", ()))
 
     # -- settings.serialization ----------------------------------------------------------------------
     ss = settings.serialization
@@ -548,7 +608,7 @@ def build_ops() -> List[Op]:
             return Conversion(operator.attrgetter("v"), source=tp, target=int)
         return D("settings.serialization", "default_conversion")(tp)
 
-    for attr, groups in (("check_type", ["foo", "raw"]), ("fall_back_on_any", ["foo", "raw", "ext"]), ("exclude_defaults", ["foo"]), ("exclude_none", ["foo", "raw"]), ("exclude_unset", ["foo"]), ("no_copy", ["raw"])):
+    for attr, groups in (("check_type", ["foo", "raw"]), ("fall_back_on_any", ["foo", "raw"]), ("exclude_defaults", ["foo"]), ("exclude_none", ["foo", "raw"]), ("exclude_unset", ["foo"]), ("no_copy", ["raw"])):
         add(f"settings.serialization.{attr}=True", "serialization", groups, setter(ss, attr, True))
         add(f"settings.serialization.{attr}=False", "serialization", groups, setter(ss, attr, False))
     add("settings.serialization.default_conversion=custom", "serialization", ["ext"], setter(ss, "default_conversion", custom_ser_conv))
@@ -558,48 +618,63 @@ def build_ops() -> List[Op]:
     add("settings.serialization.pass_through=default", "serialization", ["foo", "raw"], setter(ss, "pass_through", D("settings.serialization", "pass_through")))
 
     # -- conversions registry ----------------------------------------------------------------------------
-    add("deserializer(ext_from_int)", "deserializers", ["ext"], lambda w: deserializer(w["ext"]["ext_from_int"]))
-    add("deserializer(ext_from_str)", "deserializers", ["ext"], lambda w: deserializer(w["ext"]["ext_from_str"]))
-    add("reset_deserializers(Ext)", "deserializers", ["ext"], lambda w: reset_deserializers(w["ext"]["Ext"]))
-    add("deserializer(Conversion(foo_from_int))", "deserializers", ["foo"], lambda w: deserializer(Conversion(w["foo"]["foo_from_int"], source=int, target=w["foo"]["Foo"])))
-    add("reset_deserializers(Foo)", "deserializers", ["foo"], lambda w: reset_deserializers(w["foo"]["Foo"]))
-    add("serializer(ext_to_int)", "serializers", ["ext"], lambda w: serializer(w["ext"]["ext_to_int"]))
-    add("serializer(ext_to_str)", "serializers", ["ext"], lambda w: serializer(w["ext"]["ext_to_str"]))
-    add("reset_serializer(Ext)", "serializers", ["ext"], lambda w: reset_serializer(w["ext"]["Ext"]))
-    add("serializer(Conversion(foo_to_int))", "serializers", ["foo"], lambda w: serializer(Conversion(w["foo"]["foo_to_int"], source=w["foo"]["Foo"], target=int)))
-    add("reset_serializer(Foo)", "serializers", ["foo"], lambda w: reset_serializer(w["foo"]["Foo"]))
+    add("deserializer(ext_from_int)", "deserializers", ["ext"], lambda w: deserializer(w["ext"]["ext_from_int"]), target='deserializers[Ext]')
+    add("deserializer(ext_from_str)", "deserializers", ["ext"], lambda w: deserializer(w["ext"]["ext_from_str"]), target='deserializers[Ext]')
+    add("reset_deserializers(Ext)", "deserializers", ["ext"], lambda w: reset_deserializers(w["ext"]["Ext"]), target='deserializers[Ext]')
+    add("deserializer(Conversion(foo_from_int))", "deserializers", ["foo"], lambda w: deserializer(Conversion(w["foo"]["foo_from_int"], source=int, target=w["foo"]["Foo"])), target='deserializers[Foo]')
+    add("reset_deserializers(Foo)", "deserializers", ["foo"], lambda w: reset_deserializers(w["foo"]["Foo"]), target='deserializers[Foo]')
+    add("serializer(ext_to_int)", "serializers", ["ext"], lambda w: serializer(w["ext"]["ext_to_int"]), target='serializers[Ext]')
+    add("serializer(ext_to_str)", "serializers", ["ext"], lambda w: serializer(w["ext"]["ext_to_str"]), target='serializers[Ext]')
+    add("reset_serializer(Ext)", "serializers", ["ext"], lambda w: reset_serializer(w["ext"]["Ext"]), target='serializers[Ext]')
+    add("serializer(Conversion(foo_to_int))", "serializers", ["foo"], lambda w: serializer(Conversion(w["foo"]["foo_to_int"], source=w["foo"]["Foo"], target=int)), target='serializers[Foo]')
+    add("reset_serializer(Foo)", "serializers", ["foo"], lambda w: reset_serializer(w["foo"]["Foo"]), target='serializers[Foo]')
 
     # -- object fields -----------------------------------------------------------------------------------------
-    add("set_object_fields(Ext,[v])", "object_fields", ["ext"], lambda w: set_object_fields(w["ext"]["Ext"], [ObjectField("v", int)]))
-    add("set_object_fields(Ext,[v,w])", "object_fields", ["ext"], lambda w: set_object_fields(w["ext"]["Ext"], [ObjectField("v", int), ObjectField("w", int, required=False, default=0)]))
-    add("set_object_fields(Ext,None)", "object_fields", ["ext"], lambda w: set_object_fields(w["ext"]["Ext"], None))
-    add("set_object_fields(Foo,[foo_bar])", "object_fields", ["foo"], lambda w: set_object_fields(w["foo"]["Foo"], [ObjectField("foo_bar", str, required=False, default="dflt")]))
-    add("set_object_fields(Foo,None)", "object_fields", ["foo"], lambda w: set_object_fields(w["foo"]["Foo"], None))
+    add("set_object_fields(Ext,[v])", "object_fields", ["ext"], lambda w: set_object_fields(w["ext"]["Ext"], [ObjectField("v", int)]), target='object_fields[Ext]')
+    add("set_object_fields(Ext,[v,w])", "object_fields", ["ext"], lambda w: set_object_fields(w["ext"]["Ext"], [ObjectField("v", int), ObjectField("w", int, required=False, default=0)]), target='object_fields[Ext]')
+    add("set_object_fields(Ext,None)", "object_fields", ["ext"], lambda w: set_object_fields(w["ext"]["Ext"], None), target='object_fields[Ext]')
+    add("set_object_fields(Foo,[foo_bar])", "object_fields", ["foo"], lambda w: set_object_fields(w["foo"]["Foo"], [ObjectField("foo_bar", str, required=False, default="dflt")]), target='object_fields[Foo]')
+    add("set_object_fields(Foo,None)", "object_fields", ["foo"], lambda w: set_object_fields(w["foo"]["Foo"], None), target='object_fields[Foo]')
+
+    NodeT = lambda w: w["rec"]["Node"]  # noqa: E731
+    add("set_object_fields(Node,[value])", "object_fields", ["rec"], lambda w: set_object_fields(NodeT(w), [ObjectField("value", int)]), target="object_fields[Node]")
+    add(
+        "set_object_fields(Node,[value,child:Optional[Node]])",
+        "object_fields",
+        ["rec"],
+        lambda w: set_object_fields(NodeT(w), [ObjectField("value", int), ObjectField("child", Optional[NodeT(w)], required=False, default=None)]),
+        target="object_fields[Node]",
+    )
+    add("set_object_fields(Node,None)", "object_fields", ["rec"], lambda w: set_object_fields(NodeT(w), None), target="object_fields[Node]")
+    add("deserializer(Conversion(leaf_from_tree))", "deserializers", ["rec"], lambda w: deserializer(Conversion(w["rec"]["leaf_from_tree"], source=w["rec"]["Tree"], target=w["rec"]["Leaf"])), target="deserializers[Leaf]")
+    add("reset_deserializers(Leaf)", "deserializers", ["rec"], lambda w: reset_deserializers(w["rec"]["Leaf"]), target="deserializers[Leaf]")
+    add("serializer(Conversion(leaf_to_tree))", "serializers", ["rec"], lambda w: serializer(Conversion(w["rec"]["leaf_to_tree"], source=w["rec"]["Leaf"], target=w["rec"]["Tree"])), target="serializers[Leaf]")
+    add("reset_serializer(Leaf)", "serializers", ["rec"], lambda w: reset_serializer(w["rec"]["Leaf"]), target="serializers[Leaf]")
 
     # -- type names / schemas / aliasers / ordering -----------------------------------------------------------------
-    add("type_name('Renamed')(Foo)", "type_names", ["foo"], lambda w: type_name("Renamed")(w["foo"]["Foo"]))
-    add("type_name(None)(Foo)", "type_names", ["foo"], lambda w: type_name(None)(w["foo"]["Foo"]))
-    add("type_name('NTName')(NT)", "type_names", ["nt"], lambda w: type_name("NTName")(w["nt"]["NT"]))
-    add("schema(min=5)(NT)", "schemas", ["nt"], lambda w: schema(min=5)(w["nt"]["NT"]))
-    add("schema(max=3)(NT)", "schemas", ["nt"], lambda w: schema(max=3)(w["nt"]["NT"]))
-    add("schema(description)(Foo)", "schemas", ["foo"], lambda w: schema(description="a foo", max_props=1)(w["foo"]["Foo"]))
-    add("schema()(Foo)", "schemas", ["foo"], lambda w: schema()(w["foo"]["Foo"]))
-    add("alias(upper)(CA)", "class_aliasers", ["ca"], lambda w: alias(upper)(w["ca"]["CA"]))
-    add("alias(dash)(CA)", "class_aliasers", ["ca"], lambda w: alias(lambda s: s.replace("_", "-"))(w["ca"]["CA"]))
-    add("order({b:-1})(O)", "ordering", ["o"], lambda w: order({"b": order(-1)})(w["o"]["O"]))
-    add("order([c,a])(O)", "ordering", ["o"], lambda w: order(["c", "a"])(w["o"]["O"]))
-    add("order({d:before a})(OSub)", "ordering", ["o"], lambda w: order({"d": order(before="a")})(w["o"]["OSub"]))
+    add("type_name('Renamed')(Foo)", "type_names", ["foo"], lambda w: type_name("Renamed")(w["foo"]["Foo"]), target='type_names[Foo]')
+    add("type_name(None)(Foo)", "type_names", ["foo"], lambda w: type_name(None)(w["foo"]["Foo"]), target='type_names[Foo]')
+    add("type_name('NTName')(NT)", "type_names", ["nt"], lambda w: type_name("NTName")(w["nt"]["NT"]), target='type_names[NT]')
+    add("schema(min=5)(NT)", "schemas", ["nt"], lambda w: schema(min=5)(w["nt"]["NT"]), target='schemas[NT]')
+    add("schema(max=3)(NT)", "schemas", ["nt"], lambda w: schema(max=3)(w["nt"]["NT"]), target='schemas[NT]')
+    add("schema(description)(Foo)", "schemas", ["foo"], lambda w: schema(description="a foo", max_props=1)(w["foo"]["Foo"]), target='schemas[Foo]')
+    add("schema()(Foo)", "schemas", ["foo"], lambda w: schema()(w["foo"]["Foo"]), target='schemas[Foo]')
+    add("alias(upper)(CA)", "class_aliasers", ["ca"], lambda w: alias(upper)(w["ca"]["CA"]), target='class_aliasers[CA]')
+    add("alias(dash)(CA)", "class_aliasers", ["ca"], lambda w: alias(lambda s: s.replace("_", "-"))(w["ca"]["CA"]), target='class_aliasers[CA]')
+    add("order({b:-1})(O)", "ordering", ["o"], lambda w: order({"b": order(-1)})(w["o"]["O"]), target='ordering[O]')
+    add("order([c,a])(O)", "ordering", ["o"], lambda w: order(["c", "a"])(w["o"]["O"]), target='ordering[O]')
+    add("order({d:before a})(OSub)", "ordering", ["o"], lambda w: order({"d": order(before="a")})(w["o"]["OSub"]), target='ordering[OSub]')
 
     # -- validators / dependent_required / discriminator / serialized methods ---------------------------------------------
-    add("validator(owner=V)(v_lt)", "validators", ["v"], lambda w: validator(owner=w["v"]["V"])(w["v"]["v_lt"]))
-    add("validator(owner=V)(v_pos)", "validators", ["v"], lambda w: validator(owner=w["v"]["V"])(w["v"]["v_pos"]))
-    add("dependent_required({a:[b]},owner=DR)", "dependent_required", ["dr"], lambda w: dependent_required({"a": ["b"]}, owner=w["dr"]["DR"]))
-    add("dependent_required({c:[a]},owner=DR)", "dependent_required", ["dr"], lambda w: dependent_required({"c": ["a"]}, owner=w["dr"]["DR"]))
-    add("discriminator('kind')(Animal)", "discriminators", ["animal"], lambda w: discriminator("kind")(w["animal"]["Animal"]))
-    add("discriminator('type',{kitty:Cat})(Animal)", "discriminators", ["animal"], lambda w: discriminator("type", {"kitty": w["animal"]["Cat"]})(w["animal"]["Animal"]))
-    add("serialized(owner=S)(s_double)", "serialized", ["s"], lambda w: serialized(owner=w["s"]["S"])(w["s"]["s_double"]))
-    add("serialized('other',owner=S)(s_triple)", "serialized", ["s"], lambda w: serialized("other", owner=w["s"]["S"])(w["s"]["s_triple"]))
-    add("serialized(owner=SSub)(s_triple)", "serialized", ["s"], lambda w: serialized(owner=w["s"]["SSub"])(w["s"]["s_triple"]))
+    add("validator(owner=V)(v_lt)", "validators", ["v"], lambda w: validator(owner=w["v"]["V"])(w["v"]["v_lt"]), target='validators[V]')
+    add("validator(owner=V)(v_pos)", "validators", ["v"], lambda w: validator(owner=w["v"]["V"])(w["v"]["v_pos"]), target='validators[V]')
+    add("dependent_required({a:[b]},owner=DR)", "dependent_required", ["dr"], lambda w: dependent_required({"a": ["b"]}, owner=w["dr"]["DR"]), target='dependent_required[DR]')
+    add("dependent_required({c:[a]},owner=DR)", "dependent_required", ["dr"], lambda w: dependent_required({"c": ["a"]}, owner=w["dr"]["DR"]), target='dependent_required[DR]')
+    add("discriminator('kind')(Animal)", "discriminators", ["animal"], lambda w: discriminator("kind")(w["animal"]["Animal"]), target='discriminators[Animal]')
+    add("discriminator('type',{kitty:Cat})(Animal)", "discriminators", ["animal"], lambda w: discriminator("type", {"kitty": w["animal"]["Cat"]})(w["animal"]["Animal"]), target='discriminators[Animal]')
+    add("serialized(owner=S)(s_double)", "serialized", ["s"], lambda w: serialized(owner=w["s"]["S"])(w["s"]["s_double"]), target='serialized[S]')
+    add("serialized('other',owner=S)(s_triple)", "serialized", ["s"], lambda w: serialized("other", owner=w["s"]["S"])(w["s"]["s_triple"]), target='serialized[S]')
+    add("serialized(owner=SSub)(s_triple)", "serialized", ["s"], lambda w: serialized(owner=w["s"]["SSub"])(w["s"]["s_triple"]), target='serialized[SSub]')
     return ops
 
 
@@ -607,7 +682,7 @@ def build_ops() -> List[Op]:
 # the cold start: a pristine interpreter forked per request
 
 
-def cold_run(factory: WorldFactory, ops: Dict[str, Op], names: Sequence[str], groups: Sequence[str]) -> Dict[str, Any]:
+def cold_run(factory: WorldFactory, ops: Dict[str, Op], names: Sequence[str], groups: Sequence[str], with_first: bool = False) -> Dict[str, Any]:
     """in a pristine process: fresh world, replay the configuration only, observe"""
     world = factory.build(sorted(set(groups) | {g for n in names for g in ops[n].groups}))
     errors = []
@@ -616,9 +691,11 @@ def cold_run(factory: WorldFactory, ops: Dict[str, Op], names: Sequence[str], gr
             ops[n].apply(world)
         except Exception as e:
             errors.append(f"{n}: {type(e).__name__}: {e}")
-    first = observe(world, groups)  # the very first use of apischema in this process
-    isolated = observe(world, groups, reset_each_block=True)
-    return {"isolated": isolated, "order_dependent": {k: [first[k], isolated[k]] for k in first if first[k] != isolated[k]}, "op_errors": errors}
+    # the observations of one type are the very first use of apischema in this process, or follow a
+    # cache.reset(): the expected value of an observation never depends on the other observations
+    first = observe(world, groups) if with_first else None
+    isolated = observe(world, groups, reset_each_type=True)
+    return {"isolated": isolated, "order_dependent": {k: [first[k], isolated[k]] for k in first if first[k] != isolated[k]} if first is not None else {}, "op_errors": errors}
 
 
 ZYGOTE_BOOT = "import sys; sys.path.insert(0, {verif!r}); sys.path.insert(0, {repo!r}); from drivers import cache_hist; cache_hist.zygote_main({wdir!r})"
@@ -637,7 +714,7 @@ def zygote_main(wdir: str):
         if pid == 0:
             os.close(r)
             try:
-                res = cold_run(factory, ops, req["ops"], req["groups"])
+                res = cold_run(factory, ops, req["ops"], req["groups"], req.get("with_first", False))
             except BaseException as e:  # noqa
                 res = {"crash": f"{type(e).__name__}: {e}"}
             data = json.dumps(res).encode()
@@ -653,9 +730,13 @@ def zygote_main(wdir: str):
 
 
 class Cold:
-    """client of the zygote; answers are memoised per (configuration prefix, group)"""
+    """client of the zygote; requests are pipelined (sent before the warm run, read after it) and the
+    answers memoised per (configuration prefix, group)"""
 
     def __init__(self, factory: WorldFactory):
+        import queue
+        import threading
+
         verif = os.path.dirname(os.path.dirname(os.path.abspath(__file__)))
         repo = os.environ.get("VERIF_REPO", "/repo")
         env = dict(os.environ)
@@ -664,31 +745,55 @@ class Cold:
             [sys.executable, "-W", "ignore", "-c", ZYGOTE_BOOT.format(verif=verif, repo=repo, wdir=factory.dir)], stdin=subprocess.PIPE, stdout=subprocess.PIPE, env=env, cwd=verif, text=True
         )
         self.memo: Dict[Tuple[Tuple[str, ...], str], Dict[str, Any]] = {}
+        self.pending: List[Tuple[Tuple[str, ...], List[str]]] = []
+        self.inflight: set = set()
         self.requests = 0
+        self.answers: "queue.Queue[Optional[str]]" = queue.Queue()
 
-    def get(self, names: Sequence[str], groups: Sequence[str]) -> Dict[str, Any]:
+        def reader():
+            for line in self.proc.stdout:
+                self.answers.put(line)
+            self.answers.put(None)
+
+        self.thread = threading.Thread(target=reader, daemon=True)
+        self.thread.start()
+
+    def prefetch(self, names: Sequence[str], groups: Sequence[str], with_first: bool = False):
         key = tuple(names)
-        missing = [g for g in groups if (key, g) not in self.memo]
-        if missing:
-            self.requests += 1
-            self.proc.stdin.write(json.dumps({"ops": list(names), "groups": missing}) + "\n")
-            self.proc.stdin.flush()
-            line = self.proc.stdout.readline()
-            if not line:
-                raise RuntimeError("the cold-start process died")
-            res = json.loads(line)
-            if "crash" in res:
-                raise RuntimeError("cold start crashed: " + res["crash"])
-            for g in missing:
-                pre = g + "."
-                self.memo[(key, g)] = {
-                    "isolated": {k: v for k, v in res["isolated"].items() if k.startswith(pre)},
-                    "order_dependent": {k: v for k, v in res["order_dependent"].items() if k.startswith(pre)},
-                    "op_errors": res["op_errors"],
-                }
+        missing = [g for g in groups if (key, g) not in self.memo and (key, g) not in self.inflight]
+        if not missing:
+            return
+        self.requests += 1
+        self.inflight.update((key, g) for g in missing)
+        self.pending.append((key, missing))
+        self.proc.stdin.write(json.dumps({"ops": list(names), "groups": missing, "with_first": with_first}) + "\n")
+        self.proc.stdin.flush()
+
+    def _drain_one(self):
+        key, missing = self.pending.pop(0)
+        line = self.answers.get(timeout=120)
+        if not line:
+            raise RuntimeError("the cold-start process died")
+        res = json.loads(line)
+        if "crash" in res:
+            raise RuntimeError("cold start crashed: " + res["crash"])
+        for g in missing:
+            pre = g + "."
+            self.inflight.discard((key, g))
+            self.memo[(key, g)] = {
+                "isolated": {k: v for k, v in res["isolated"].items() if k.startswith(pre)},
+                "order_dependent": {k: v for k, v in res["order_dependent"].items() if k.startswith(pre)},
+                "op_errors": res["op_errors"],
+            }
+
+    def get(self, names: Sequence[str], groups: Sequence[str], keep: bool = True) -> Dict[str, Any]:
+        key = tuple(names)
+        self.prefetch(names, groups)
+        while any((key, g) in self.inflight for g in groups):
+            self._drain_one()
         out: Dict[str, Any] = {"isolated": {}, "order_dependent": {}, "op_errors": []}
         for g in groups:
-            m = self.memo[(key, g)]
+            m = self.memo[(key, g)] if keep else self.memo.pop((key, g))
             out["isolated"].update(m["isolated"])
             out["order_dependent"].update(m["order_dependent"])
             out["op_errors"] = m["op_errors"]
@@ -712,23 +817,28 @@ def run(report, tier: str, seed: int):
     rng = random.Random(seed)
     quick = tier == "quick"
     ops = build_ops()
-    by_name = {o.name: o for o in ops}
     families: Dict[str, List[Op]] = {}
+    targets: Dict[str, List[Op]] = {}
     for o in ops:
         families.setdefault(o.family, []).append(o)
-    # representative error attributes for the sequences (all of them are exercised as single operations)
+        targets.setdefault(o.target, []).append(o)
+    # alphabet of the sequences: the error messages are represented by 4 of them (all of them are
+    # exercised as single operations and with their inverse)
     err_rep = {"minimum", "missing_property", "one_of", "pattern"}
-    seq_ops = [o for o in ops if o.family != "errors" or o.name.split(".")[2].split("=")[0] in err_rep]
+    seq_ops = [o for o in ops if o.family != "errors" or o.target.split(".")[2] in err_rep]
 
-    budget_s = 48 if quick else 520
-    n_walks = 6 if quick else 60
-    walk_len = 12 if quick else 30
+    n_pairs_max, n_tri_max = (150, 0) if quick else (1500, 800)
+    budget_s = 110 if quick else 1000  # safety stop only (recorded as `truncated` in the evidence when hit)
+    n_walks = 4 if quick else 20
+    walk_len = 12 if quick else 25
     log = report.driver(
         "histories_vs_cold_start",
-        bound=f"alphabet of {len(ops)} configuration operations in {len(families)} families (5 settings classes incl. all {len(families['errors']) // 2} error messages, deserializer / serializer registration and reset, set_object_fields, type_name, schema, "
-        f"class aliaser, order overriding, validators, dependent_required, discriminator, serialized methods) over a world of {len(GROUPS)} groups of fresh classes; exhaustive: the empty history, every history of length 1, "
-        f"every history of length 2 inside a family" + (" and across families ({} operations, error messages by 4 representatives)".format(len(seq_ops)) if not quick else "")
-        + f"; sampled within {budget_s} s: seeded histories of length {'2 across families' if quick else '3'}, with and without intermediate observations; {n_walks} random walks of length {walk_len}; "
+        bound=f"alphabet of {len(ops)} configuration operations on {len(targets)} configuration cells in {len(families)} families (the 5 settings classes incl. all {len(families['errors']) // 2} error messages, "
+        "deserializer / serializer registration and reset_*, set_object_fields, type_name, schema, class aliaser, order overriding, validators, dependent_required, discriminator, serialized methods) "
+        f"over a world of {len(GROUPS)} groups of fresh classes; exhaustive: the empty history, every history of length 1, every history of length 2 on one configuration cell (set / replace / restore / remove)"
+        + ("" if quick else ", every history of length 2 inside a family")
+        + f"; sampled: {n_pairs_max} seeded histories of length 2 across the {len(seq_ops)}-operation alphabet" + ("" if quick else f" and {n_tri_max} of length 3")
+        + f", with and without intermediate observations; {n_walks} random walks of length {walk_len} observed after every step; "
         "6 observation kinds (deserialize, deserialization_method, serialize, serialization_method, deserialization_schema, serialization_schema) on every type of the groups touched",
         label="B",
     )
@@ -742,8 +852,9 @@ def run(report, tier: str, seed: int):
     snap = snapshot_settings()
     fail_budget: Dict[Any, int] = {}
     t_start = time.time()
+    counts = {"histories": 0}
 
-    def fail(kind, culprit, key, hist, point, got, exp, extra=""):
+    def fail(kind, culprit, key, hist, point, got, exp):
         grp, label, obs = key.split(".", 2)
         cls = (kind, culprit, label, obs.split("[")[0])
         fail_budget[cls] = fail_budget.get(cls, 0) + 1
@@ -753,90 +864,115 @@ def run(report, tier: str, seed: int):
         hs = " ; ".join(hist) or "(no operation)"
         log.fail(
             f"{kind}:{culprit}:{label}.{obs}:[{hs}]@{point}",
-            f"{kind}: after [{hs}] (observed at {point}) {label}.{obs} answers {got[:160]} but a cold start with the same configuration answers {exp[:160]}{extra}",
+            f"{kind}: after [{hs}] (observed at {point}) {label}.{obs} answers {got[:160]} but a cold start with the same configuration answers {exp[:160]}",
             {"history": list(hist), "observation": key, "point": point},
             observed=got,
             expected=exp,
             functions_involved=["CacheAwareDict", "ResetCache", "reset", "cache"],
         )
 
-    def compare(hist_names, upto, groups, warm, point, culprit):
-        c = cold.get(hist_names[:upto], groups)
+    def compare(c, hist_names, warm, point, culprit):
         for k, exp in c["isolated"].items():
             if k not in warm:
-                fail("missing-observation", culprit, k, hist_names[:upto], point, "(not observed in the warm process)", exp)
+                fail("missing-observation", culprit, k, hist_names, point, "(not observed in the warm process)", exp)
                 continue
             got = warm[k]
             if got != exp:
                 kind = "stale" if point != "after-reset" else "reset-not-cold"
-                if k in c["order_dependent"] or (upto == 0 and point == "primed"):
+                if k in c["order_dependent"] or not hist_names:
                     kind = "observation-order"
-                fail(kind, culprit, k, hist_names[:upto], point, str(got), exp)
-        return c
+                fail(kind, culprit, k, hist_names, point, str(got), exp)
 
-    def run_history(hist: Sequence[Op], observe_each: bool = True, final_reset: bool = True, kinds=KINDS):
+    def run_history(hist: Sequence[Op], observe_each: bool = True, final_reset: bool = True, memo: bool = True):
         names = [o.name for o in hist]
-        groups = sorted({g for o in hist for g in o.groups}) or ["union", "raw"]
+        groups = sorted({g for o in hist for g in o.groups}) or sorted(GROUPS)
+        counts["histories"] += 1
+        points = [i + 1 for i in range(len(hist)) if observe_each or i == len(hist) - 1]
+        cold.prefetch([], groups, with_first=not hist)
+        for i in points:
+            cold.prefetch(names[:i], groups)
+        observed: List[Tuple[int, str, Dict[str, str]]] = []
         try:
             world = factory.build(groups)
-            warm = observe(world, groups, kinds=kinds)
-            c_prev = compare(names, 0, groups, warm, "primed", "(none)")
+            observed.append((0, "primed", observe(world, groups)))
             for i, o in enumerate(hist):
                 try:
                     o.apply(world)
                 except Exception as e:
                     report.tool_error(f"operation {o.name} raised {e!r}")
-                    return
-                last = i == len(hist) - 1
-                if observe_each or last:
-                    warm = observe(world, groups, kinds=kinds)
-                    c = compare(names, i + 1, groups, warm, f"op{i + 1}", o.name)
-                    nontrivial = c["isolated"] != c_prev["isolated"]
-                    log.case((tuple(names[: i + 1]), observe_each, kinds), nontrivial, sample={"history": names[: i + 1], "observed_each_step": observe_each, "groups": groups})
-                    c_prev = c
-                    if c["op_errors"]:
-                        report.tool_error(f"cold replay: {c['op_errors'][0]}")
-            if final_reset:
-                apischema.cache.reset()
-                warm = observe(world, groups)
-                compare(names, len(hist), groups, warm, "after-reset", hist[-1].name if hist else "(none)")
-                log.case((tuple(names), "after-reset"), bool(hist))
+                    break
+                if i + 1 in points:
+                    observed.append((i + 1, f"op{i + 1}", observe(world, groups)))
+            else:
+                if final_reset:
+                    apischema.cache.reset()
+                    observed.append((len(hist), "after-reset", observe(world, groups)))
         finally:
             restore_settings(snap)
             apischema.cache.reset()
+        c_prev = None
+        for upto, point, warm in observed:
+            c = cold.get(names[:upto], groups, keep=memo or upto <= 1)
+            compare(c, names[:upto], warm, point, hist[upto - 1].name if upto else "(none)")
+            if c["op_errors"]:
+                report.tool_error(f"cold replay: {c['op_errors'][0]}")
+            if point.startswith("op"):
+                log.case((tuple(names[:upto]), observe_each), c_prev is not None and c["isolated"] != c_prev["isolated"], sample={"history": names[:upto], "observed_each_step": observe_each, "groups": groups})
+            elif point == "after-reset":
+                log.case((tuple(names), "after-reset"), bool(hist))
+            else:
+                log.case((tuple(groups), "primed"), False)
+            c_prev = c
+
+    def left():
+        return budget_s - (time.time() - t_start)
 
     try:
-        # the empty history (observations alone), every single operation
+        # the empty history (observations alone, on every group), every single operation
         run_history([])
         for o in ops:
             run_history([o])
-        # pairs inside a family (operation and its inverse / replacement / removal)
-        for fam, fops in families.items():
-            fo = [o for o in fops if o in seq_ops]
-            for a, b in itertools.permutations(fo, 2):
-                run_history([a, b], final_reset=False)
+        # every ordered pair of operations on one configuration cell
+        n_cell = 0
+        for tname, tops in targets.items():
+            for a, b in itertools.product(tops, repeat=2):
+                if a is not b or a.family not in ("settings", "errors", "base_schema", "deserialization", "serialization"):
+                    run_history([a, b], final_reset=False)
+                    n_cell += 1
+        log.stats["same_cell_pairs"] = n_cell
+        if not quick:
+            n_fam = 0
+            for fam, fops in families.items():
+                fo = [o for o in fops if o in seq_ops]
+                for a, b in itertools.permutations(fo, 2):
+                    if a.target != b.target:
+                        run_history([a, b], final_reset=False)
+                        n_fam += 1
+            log.stats["same_family_pairs"] = n_fam
         log.stats["exhaustive_part_s"] = round(time.time() - t_start, 1)
-        # across families
-        cross = [(a, b) for a in seq_ops for b in seq_ops if a.family != b.family]
-        if quick:
-            rng.shuffle(cross)
-        n_cross = 0
-        t_cross = time.time()
-        for a, b in cross:
-            if quick and time.time() - t_start > budget_s * 0.7:
-                break
-            run_history([a, b], observe_each=bool(n_cross % 3), final_reset=False)
-            n_cross += 1
-        log.stats["cross_family_pairs"] = f"{n_cross} of {len(cross)}"
-        # random walks
+        # random walks (reserve), then pairs across the alphabet (and triples) until the budget
+        t_w = time.time()
         for _ in range(n_walks):
-            run_history([rng.choice(seq_ops) for _ in range(walk_len)], observe_each=True, final_reset=True)
-        # triples (thorough) / remaining budget
-        n_tri = 0
-        while not quick and time.time() - t_start < budget_s:
-            run_history([rng.choice(seq_ops) for _ in range(3)], observe_each=bool(n_tri % 2), final_reset=False)
+            run_history([rng.choice(seq_ops) for _ in range(walk_len)], observe_each=True, final_reset=True, memo=False)
+        log.stats["walks_s"] = round(time.time() - t_w, 1)
+        pairs = [(a, b) for a in seq_ops for b in seq_ops if a.target != b.target and (quick or a.family != b.family)]
+        rng.shuffle(pairs)
+        n_pairs = n_tri = 0
+        for a, b in pairs[:n_pairs_max]:
+            if left() < 0:
+                log.stats["truncated"] = True
+                break
+            run_history([a, b], observe_each=bool(n_pairs % 3), final_reset=False)
+            n_pairs += 1
+        log.stats["sampled_pairs"] = f"{n_pairs} of {len(pairs)}"
+        while n_tri < n_tri_max:
+            if left() < 0:
+                log.stats["truncated"] = True
+                break
+            run_history([rng.choice(seq_ops) for _ in range(3)], observe_each=bool(n_tri % 2), final_reset=False, memo=False)
             n_tri += 1
         log.stats["sampled_triples"] = n_tri
+        log.stats["histories"] = counts["histories"]
         log.stats["cold_requests"] = cold.requests
     finally:
         restore_settings(snap)
@@ -844,3 +980,37 @@ def run(report, tier: str, seed: int):
         cold.close()
         factory.dispose()
     return log
+
+
+def replay(rp: dict) -> int:
+    """re-run the history of a replay file: 1 when the warm observation still differs from the cold start"""
+    import apischema
+
+    case = rp.get("case") or {}
+    print(json.dumps({k: rp.get(k) for k in ("property", "signature", "summary")}, indent=1, default=str))
+    if "history" not in case:
+        return 1
+    ops = {o.name: o for o in build_ops()}
+    hist = [ops[n] for n in case["history"]]
+    key, point = case["observation"], case.get("point", "")
+    groups = sorted({g for o in hist for g in o.groups}) or sorted(GROUPS)
+    factory = WorldFactory()
+    cold = Cold(factory)
+    snap = snapshot_settings()
+    try:
+        world = factory.build(groups)
+        warm = observe(world, groups)
+        for o in hist:
+            o.apply(world)
+            warm = observe(world, groups)
+        if point == "after-reset":
+            apischema.cache.reset()
+            warm = observe(world, groups)
+        exp = cold.get([o.name for o in hist], groups)["isolated"]
+        print(f"{key}\n  warm: {warm.get(key)}\n  cold: {exp.get(key)}")
+        return 0 if warm.get(key) == exp.get(key) else 1
+    finally:
+        restore_settings(snap)
+        apischema.cache.reset()
+        cold.close()
+        factory.dispose()
